@@ -122,6 +122,8 @@ class TArr:
             return Builtin('ndarray.conj', lambda ip_, a, k: TArr([(conj_name(s), ls) for s, ls in self.factors], self.out, self.coeff))
         if attr == 'copy':
             return Builtin('ndarray.copy', lambda ip_, a, k: self)
+        if attr == 'diagonal' and self.rank == 2 and self.out[0] == self.out[1]:
+            return Builtin('ndarray.diagonal', lambda ip_, a, k: TArr(self.factors, [self.out[0]], self.coeff))
         raise Unsupported('tensor attribute %s' % attr)
 
     def pv_binop(self, ip, opname, other, reflected=False):
@@ -358,6 +360,8 @@ class TNode:
         self.name = name
 
     def tensor_value(self):
+        if getattr(self, 'factor_of_svd', False):
+            return self.arr                   # (only its diagonal / shape is ever read: the singular values)
         if any(not e.is_dangling() for e in self.edges):
             raise Unsupported('get_tensor of a node with connected edges')
         return self.arr
@@ -402,6 +406,8 @@ class TNode:
         if attr == 'copy':
             # Node.copy(): same tensor, fresh dangling edges
             return Builtin('Node.copy', lambda ip_, a, k: TNode(self.arr, self.name))
+        if attr == 'get_rank':
+            return Builtin('Node.get_rank', lambda ip_, a, k: self.arr.rank)
         if attr == 'get_dimension':
             return Builtin('Node.get_dimension', lambda ip_, a, k: TDim(str(self.arr.out[concrete_int(a[0])])))
         raise Unsupported('node attribute %s' % attr)
@@ -480,6 +486,50 @@ def tn_copy(nodes):
             c.edges.append(ne)
             ne.ends.append((c, ax))
     return node_dict, edge_dict
+
+
+def split_node_full_svd(ip, node, left_edges, right_edges, **trunc):
+    """tn.split_node_full_svd(node, left_edges, right_edges, ...) -> (u, s, vh, truncated values) with ONE right edge, as an EXACT
+    factorisation  node[L, r] = sum_b u[L, b] s[b, b'] vh[b', r]:  u is the node itself (its axis r becomes the new bond), s and vh are
+    identities.  Every network identity that holds for this factorisation holds for the SVD with nothing truncated (the code may only
+    contract the factors; their isometry is not available).  The truncation parameters of the call are recorded (ghost 'svd_calls')."""
+    left_edges, right_edges = list(left_edges), list(right_edges)
+    if len(right_edges) != 1:
+        raise Unsupported('split_node_full_svd with %d right edges' % len(right_edges))
+    if sorted(map(id, left_edges + right_edges)) != sorted(map(id, node.edges)):
+        raise PyRaise(ExcVal('ValueError', ('left_edges and right_edges do not partition the edges of the node',)))
+    ip.ghost.setdefault('svd_calls', []).append(dict(trunc))
+    order = left_edges + right_edges
+    perm = [next(i for i, e in enumerate(node.edges) if e is x) for x in order]
+
+    def mk(arr, edges):
+        n = TNode.__new__(TNode)
+        n.arr, n.name, n.edges = arr, None, edges
+        for ax, e in enumerate(edges):
+            e.ends = [((n, ax) if (m is node or m is n) else (m, x)) for m, x in e.ends]
+        return n
+    r_edge = right_edges[0]
+    # u: the node with the right axis as new bond
+    b1 = TEdge.__new__(TEdge)
+    b1.name, b1.ends = None, []
+    u = mk(node.arr.permute(perm), left_edges + [b1])
+    b1.ends = [(u, len(left_edges))]
+    la, lb = new_label(), new_label()
+    s_node = TNode(TArr([], [la, la]))
+    s_node.factor_of_svd = True
+    vh = TNode(TArr([], [lb, lb]))
+    vh.factor_of_svd = True
+    # connect u -b1- s -b2- vh, and give vh the original right edge
+    e_s0 = s_node.edges[0]
+    (n1, a1) = b1.ends[0]
+    b1.ends = [(n1, a1), (s_node, 0)]
+    s_node.edges[0] = b1
+    b2 = s_node.edges[1]
+    b2.ends = [(s_node, 1), (vh, 0)]
+    vh.edges[0] = b2
+    r_edge.ends = [((vh, 1) if (m is node or m is u) else (m, x)) for m, x in r_edge.ends]
+    vh.edges[1] = r_edge
+    return (u, s_node, vh, TArr([], [new_label()]))
 
 
 def split_edge(edge, shape):
@@ -634,6 +684,14 @@ def install(R):
     R.lib_models['numpy.kron'] = m_kron
     R.lib_models['numpy.identity'] = m_identity
     R.lib_models['numpy.diag'] = m_diag
+    @model
+    def m_svd(ip, args, kw):
+        kw = dict(kw)
+        node = kw.pop('node', args[0] if args else None)
+        le = kw.pop('left_edges', args[1] if len(args) > 1 else None)
+        re_ = kw.pop('right_edges', args[2] if len(args) > 2 else None)
+        return split_node_full_svd(ip, node, le, re_, **kw)
+    R.lib_models['tensornetwork.split_node_full_svd'] = m_svd
     R.lib_models['tensornetwork.split_edge'] = m_split_edge
     R.lib_models['tensornetwork.flatten_edges'] = m_flatten_edges
     R.lib_models['numpy.tensordot'] = m_tensordot
